@@ -9,6 +9,8 @@ import (
 
 	rt "github.com/blevesearch/bleve/v2/internal/verifrt"
 	"github.com/blevesearch/bleve/v2/search"
+	"github.com/blevesearch/bleve/v2/search/query"
+	"github.com/blevesearch/bleve/v2/util"
 )
 
 // verifShard is a stub index holding some of the corpus's documents. It answers a search request
@@ -298,4 +300,105 @@ func VerifH_C09_ChildRequest() {
 		"the caller's sort is as it was after the search")
 	rt.Cover(rt.And(mode == 2, sf.Missing == search.SortFieldMissingFirst), "search-before-missing-first")
 	rt.Cover(rt.And(mode == 0, sf.Missing == search.SortFieldMissingFirst, sf.Desc), "missing-first-desc")
+}
+
+// VerifH_C17_SearchRequestJSON: a search request (term query; size, from, explain, includeLocations,
+// score mode, stored fields, a terms facet and a numeric range facet, highlight style and fields,
+// search_after key, and a sort of a field key - direction / type / mode / missing policy chosen among
+// all combinations - followed by score or _id) serialised to JSON and parsed back is the same request,
+// option by option, and serialises to the same JSON again.
+func VerifH_C17_SearchRequestJSON() {
+	size, from := rt.Int("size"), rt.Int("from")
+	rt.Assume(rt.And(size >= 0, size <= 100, from >= 0, from <= 100))
+	req := NewSearchRequestOptions(NewTermQuery("t"), size, from, rt.Bool("explain"))
+	extras := rt.Choice("extras", 2) == 1 // stored fields, facets, highlight and search_after together
+	req.IncludeLocations = rt.Bool("locations")
+	req.Score = []string{"", "none"}[rt.Choice("score", 2)]
+	if extras {
+		req.Fields = []string{"a", "*"}
+	}
+	sf := &search.SortField{Field: "f", Desc: rt.Choice("desc", 2) == 1, Type: search.SortFieldType(rt.Choice("type", 4)),
+		Mode: search.SortFieldMode(rt.Choice("mode", 3)), Missing: search.SortFieldMissing(rt.Choice("missing", 2))}
+	second := rt.Choice("second_key", 3)
+	so := search.SortOrder{sf}
+	switch second {
+	case 1:
+		so = append(so, &search.SortDocID{Desc: rt.Choice("id_desc", 2) == 1})
+	case 2:
+		so = append(so, &search.SortScore{Desc: rt.Choice("score_desc", 2) == 1})
+	}
+	req.SortByCustom(so)
+	withFacets := extras
+	if withFacets {
+		req.AddFacet("terms", NewFacetRequest("g", rt.Choice("facet_size", 2)+1))
+		nf := NewFacetRequest("n", 3)
+		lo, hi := 1.0, 5.0
+		nf.AddNumericRange("low", nil, &lo)
+		nf.AddNumericRange("mid", &lo, &hi)
+		req.AddFacet("ranges", nf)
+	}
+	withHL := extras
+	if withHL {
+		req.Highlight = NewHighlightWithStyle("html")
+		req.Highlight.AddField("a")
+	}
+	withAfter := extras
+	if withAfter {
+		req.SearchAfter = []string{"k", "d1"}[:len(so)]
+	}
+	data, err := util.MarshalJSON(req)
+	rt.Assert(err == nil, "request serialises")
+	var back SearchRequest
+	err = util.UnmarshalJSON(data, &back)
+	rt.Assert(err == nil, "serialised request parses")
+	if err != nil {
+		return
+	}
+	rt.Assert(rt.And(back.Size == req.Size, back.From == req.From, back.Explain == req.Explain, back.IncludeLocations == req.IncludeLocations, back.Score == req.Score),
+		"size, from, explain, includeLocations and score mode survive")
+	rt.Assert(len(back.Fields) == len(req.Fields), "stored fields survive")
+	tq, ok := back.Query.(*query.TermQuery)
+	rt.Assert(ok && tq.Term == "t", "query survives")
+	rt.Assert(len(back.Sort) == len(so), "every sort key survives")
+	if len(back.Sort) == len(so) {
+		bsf, ok := back.Sort[0].(*search.SortField)
+		rt.Assert(ok, "field sort key survives as a field sort key")
+		if ok {
+			rt.Assert(rt.And(bsf.Field == sf.Field, bsf.Desc == sf.Desc, bsf.Type == sf.Type, bsf.Mode == sf.Mode, bsf.Missing == sf.Missing),
+				"field sort key keeps field, direction, type, mode and missing policy")
+		}
+		switch second {
+		case 1:
+			b, ok := back.Sort[1].(*search.SortDocID)
+			rt.Assert(ok && b.Desc == so[1].(*search.SortDocID).Desc, "_id sort key survives with its direction")
+		case 2:
+			b, ok := back.Sort[1].(*search.SortScore)
+			rt.Assert(ok && b.Desc == so[1].(*search.SortScore).Desc, "score sort key survives with its direction")
+		}
+	}
+	rt.Assert(len(back.Facets) == len(req.Facets), "facet requests survive")
+	if withFacets && len(back.Facets) == 2 {
+		t, n := back.Facets["terms"], back.Facets["ranges"]
+		rt.Assert(rt.And(t != nil, n != nil), "facet names survive")
+		if t != nil && n != nil {
+			rt.Assert(rt.And(t.Field == "g", t.Size == req.Facets["terms"].Size, n.Field == "n", n.Size == 3, len(n.NumericRanges) == 2), "facet fields, sizes and ranges survive")
+			if len(n.NumericRanges) == 2 {
+				r0, r1 := n.NumericRanges[0], n.NumericRanges[1]
+				rt.Assert(rt.And(r0.Name == "low", r0.Min == nil, r0.Max != nil, r1.Name == "mid", r1.Min != nil, r1.Max != nil), "numeric ranges keep their names and open ends")
+				if r0.Max != nil && r1.Min != nil && r1.Max != nil {
+					rt.Assert(rt.And(*r0.Max == 1.0, *r1.Min == 1.0, *r1.Max == 5.0), "numeric range bounds survive")
+				}
+			}
+		}
+	}
+	rt.Assert((back.Highlight != nil) == withHL, "highlight request survives")
+	if withHL && back.Highlight != nil {
+		rt.Assert(rt.And(back.Highlight.Style != nil, len(back.Highlight.Fields) == 1), "highlight style and fields survive")
+	}
+	rt.Assert(len(back.SearchAfter) == len(req.SearchAfter), "search_after key survives")
+	data2, err := util.MarshalJSON(&back)
+	rt.Assert(err == nil, "parsed request serialises")
+	rt.Assert(rt.JSONEqual(data, data2), "the parsed request serialises to the same JSON")
+	rt.Cover(rt.And(sf.Missing == search.SortFieldMissingFirst, sf.Desc, second == 1), "object-form-sort-with-id")
+	rt.Cover(rt.And(sf.Missing == search.SortFieldMissingLast, sf.Mode == search.SortFieldDefault, sf.Type == search.SortFieldAuto, sf.Desc), "string-form-descending-sort")
 }
